@@ -175,11 +175,17 @@ class BaseSession(SessionInterface, Generic[MessageT]):
             raise MailboxReadOnly(name)
         dest_selected = self._pick_selected(selected, mbx)
         uids: list[int] = []
-        for append_msg in messages:
-            msg = await mbx.append(append_msg, recent=not dest_selected)
-            if dest_selected:
-                dest_selected.session_flags.add_recent(msg.uid)
-            uids.append(msg.uid)
+        try:
+            for append_msg in messages:
+                msg = await mbx.append(append_msg, recent=not dest_selected)
+                if dest_selected:
+                    dest_selected.session_flags.add_recent(msg.uid)
+                uids.append(msg.uid)
+        except BaseException:
+            if uids:
+                # all or nothing, see RFC 3502
+                await shield(mbx.delete(uids))
+            raise
         return (AppendUid(mbx.uid_validity, uids),
                 await self._load_updates(selected, mbx))
 
@@ -258,13 +264,19 @@ class BaseSession(SessionInterface, Generic[MessageT]):
             raise MailboxReadOnly(mailbox)
         dest_selected = self._pick_selected(selected, dest)
         uids: list[tuple[int, int]] = []
-        for _, source_uid in selected.messages.get_uids(sequence_set):
-            dest_uid = await mbx.copy(source_uid, dest,
-                                      recent=not dest_selected)
-            if dest_uid is not None:
-                if dest_selected:
-                    dest_selected.session_flags.add_recent(dest_uid)
-                uids.append((source_uid, dest_uid))
+        try:
+            for _, source_uid in selected.messages.get_uids(sequence_set):
+                dest_uid = await mbx.copy(source_uid, dest,
+                                          recent=not dest_selected)
+                if dest_uid is not None:
+                    if dest_selected:
+                        dest_selected.session_flags.add_recent(dest_uid)
+                    uids.append((source_uid, dest_uid))
+        except BaseException:
+            if uids:
+                # restore the destination, see RFC 3501 6.4.7
+                await shield(dest.delete([uid for _, uid in uids]))
+            raise
         if not uids:
             copy_uid: CopyUid | None = None
         else:
